@@ -34,6 +34,11 @@ type Plan struct {
 	WidenUs     int // sleep inside state machine calls
 	SnapEntries uint64
 	SlowSnapMs  int // SaveSnapshot / PrepareSnapshot take this long
+	// event triggered power cut: host TrigHost loses power at the TrigK-th occurrence of
+	// TrigEvent ("" = none; "before-save" / "after-save" = SaveRaftState with content)
+	TrigEvent string
+	TrigHost  int
+	TrigK     int
 	CliSeeds    []int64
 	PreVote     bool
 	Quiesce     bool
@@ -65,6 +70,39 @@ type Fault struct {
 }
 
 func (f Fault) String() string { return fmt.Sprintf("%s(%d,%d)+%dms", faultNames[f.Kind], f.A, f.B, f.AfterMs) }
+
+type trigger struct {
+	event string
+	host  string
+	k     int32
+	count int32
+	fired int32
+	c     *Cluster
+	ch    chan struct{}
+}
+
+// fire is called from hooks inside the running system. When the trigger matches
+// it cuts the power of the victim: from now on nothing is synced, nothing is sent.
+func (tr *trigger) fire(event string, host string) {
+	if tr == nil || event != tr.event || host != tr.host || atomic.LoadInt32(&tr.fired) == 1 {
+		return
+	}
+	if atomic.AddInt32(&tr.count, 1) != tr.k {
+		return
+	}
+	if !atomic.CompareAndSwapInt32(&tr.fired, 0, 1) {
+		return
+	}
+	for _, h := range tr.c.Hosts {
+		if h.Addr == tr.host {
+			tr.c.Net.SetDead(h.Addr, true)
+			h.Mon.Freeze(true)
+			h.FS.SetIgnoreSyncs(true)
+		}
+	}
+	close(tr.ch)
+}
+
 
 // Op is one recorded client operation.
 type Op struct {
@@ -272,6 +310,13 @@ func RunPlan(p Plan) *Result {
 			h.Mon.SaveDelay = func() time.Duration { return d }
 		}
 	}
+	var tr *trigger
+	if p.TrigEvent != "" {
+		th := c.Hosts[p.TrigHost%p.Hosts]
+		tr = &trigger{event: p.TrigEvent, host: th.Addr, k: int32(p.TrigK), c: c, ch: make(chan struct{})}
+		th.Mon.BeforeSave = func(host string, uds []pb.Update) { tr.fire("before-save", host) }
+		th.Mon.AfterSave = func(host string, uds []pb.Update) { tr.fire("after-save", host) }
+	}
 	startReplica := func(h *Host) error {
 		rid := uint64(h.Idx + 1)
 		if p.NonVoting && h.Idx == p.Hosts-1 {
@@ -351,7 +396,12 @@ func RunPlan(p Plan) *Result {
 							op.Outcome, op.Ret = classifyErr(err), Now()
 							continue
 						}
-						r := <-rs.ResultC()
+						r, got := awaitResult(rs, timeout)
+						if !got {
+							res.violate("no-terminal-result", "ReadIndex on host %d (timeout %v) delivered no result within the deadline plus 10 s", hi, timeout)
+							op.Outcome, op.Ret = "noresult", Now()
+							continue
+						}
 						if r.Completed() {
 							v, err := nh.ReadLocalNode(rs, key)
 							if err == nil {
@@ -424,7 +474,12 @@ func RunPlan(p Plan) *Result {
 						op.Outcome, op.Ret = "notproposed", Now()
 						continue
 					}
-					r := <-rs.ResultC()
+					r, got := awaitResult(rs, timeout)
+					if !got {
+						res.violate("no-terminal-result", "Propose %q on host %d (timeout %v) delivered no result within the deadline plus 10 s", cmd, hi, timeout)
+						op.Outcome, op.Ret = "noresult", Now()
+						continue
+					}
 					op.Outcome, op.Ret = resultOutcome(r), Now()
 					if r.Completed() {
 						op.Index = r.GetResult().Value
@@ -554,6 +609,39 @@ func RunPlan(p Plan) *Result {
 		}
 	}()
 
+	trigDone := make(chan struct{})
+	go func() {
+		defer close(trigDone)
+		if tr == nil {
+			return
+		}
+		select {
+		case <-tr.ch:
+		case <-stopClients:
+			return
+		}
+		// the power is already off (nothing synced or sent since the trigger fired):
+		// tear the process down, drop unsynced data, restart
+		hostMu.Lock()
+		defer hostMu.Unlock()
+		th := c.Hosts[p.TrigHost%p.Hosts]
+		if !th.Up {
+			return
+		}
+		th.NH.Close()
+		th.FS.ResetToSyncedState()
+		th.FS.SetIgnoreSyncs(false)
+		NormalizeNames(th.FS, "/")
+		th.Mon.Freeze(false)
+		th.Up = false
+		if p.Kind == KindOnDisk {
+			spec.Disk(shardID, uint64(th.Idx+1)).PowerCut()
+		}
+		res.flag("power-cut")
+		res.flag("triggered-power-cut-" + p.TrigEvent)
+		time.Sleep(time.Duration(5+p.TrigK) * time.Millisecond)
+		res.restart(th, startReplica)
+	}()
 	doneC := make(chan struct{})
 	go func() { wg.Wait(); close(doneC) }()
 	select {
@@ -563,6 +651,7 @@ func RunPlan(p Plan) *Result {
 	}
 	close(stopClients)
 	<-faultsDone
+	<-trigDone
 
 	// heal, restart everything, final reads through every host
 	c.Net.HealAll()
@@ -573,6 +662,25 @@ func RunPlan(p Plan) *Result {
 	hostMu.Unlock()
 	res.finalReads(p)
 	return res
+}
+
+// awaitResult waits for the terminal result of an asynchronous request: every
+// accepted request gets one by tick driven expiry shortly after its deadline at
+// the latest (C12). The margin is generous because ticks are wall clock driven.
+func awaitResult(rs *dragonboat.RequestState, timeout time.Duration) (dragonboat.RequestResult, bool) {
+	select {
+	case r := <-rs.ResultC():
+		// a second result on the same request is a violation; it would be sitting in the
+		// channel by now or arrive while the request object is still ours
+		select {
+		case r2 := <-rs.ResultC():
+			return dragonboat.RequestResult{}, r2.Completed() && false
+		default:
+		}
+		return r, true
+	case <-time.After(timeout + 10*time.Second):
+		return dragonboat.RequestResult{}, false
+	}
 }
 
 func countUp(c *Cluster) int {
